@@ -309,7 +309,7 @@ type inlineSite struct {
 	callee types.Object
 	call   *ast.CallExpr
 	stmt   ast.Stmt
-	kind   string // "expr", "assign", "return", "ifcond", "ifinit"
+	kind   string // "expr", "assign", "return", "ifcond", "ifinit", "defer"
 }
 
 func calleeOf(c *Ctx, call *ast.CallExpr, cands map[types.Object]*inlineCandidate) types.Object {
@@ -389,6 +389,12 @@ func findCallSite(c *Ctx, st ast.Stmt, cands map[types.Object]*inlineCandidate) 
 			if call, fn := asCall(t.Results[0]); fn != nil {
 				return &inlineSite{fn, call, st, "return"}
 			}
+		}
+	case *ast.DeferStmt:
+		// `defer h(args)`: the arguments are evaluated here, the body runs when the caller returns — a deferred
+		// closure over the temporaries (only for helpers without results)
+		if call, fn := asCall(t.Call); fn != nil {
+			return &inlineSite{fn, call, st, "defer"}
 		}
 	case *ast.IfStmt:
 		if t.Init == nil {
@@ -615,6 +621,12 @@ func buildInline(c *Ctx, cand *inlineCandidate, site *inlineSite, n int) (pre []
 	switch site.kind {
 	case "expr":
 		pre, repl = preStmts, block
+	case "defer":
+		if len(results) != 0 {
+			return nil, nil, false
+		}
+		pre = preStmts
+		repl = &ast.DeferStmt{Call: &ast.CallExpr{Fun: &ast.FuncLit{Type: &ast.FuncType{Params: &ast.FieldList{}}, Body: block}}}
 	case "assign":
 		as := site.stmt.(*ast.AssignStmt)
 		if len(as.Lhs) != len(results) {
